@@ -45,6 +45,11 @@ func Arithm(cfg *Config, expr syntax.ArithmExpr) (int, error) {
 				return 0, fmt.Errorf("unsupported operand for arithmetic operator %q", expr.Op)
 			}
 			name := expr.X.(*syntax.Word).Lit()
+			if !expr.Post && !syntax.ValidName(name) {
+				// Like bash, "++" and "--" in front of something that is
+				// not a variable name, as in "++1", are two signs.
+				return Arithm(cfg, expr.X)
+			}
 			old := atoi(cfg.envGet(name))
 			val := old
 			if expr.Op == syntax.Inc {
